@@ -103,6 +103,12 @@ class LocalAdapter(Hub):
             return None
         if jb["gen"] != self.generation:
             return jb.get("last_result", "lost")
+        p = jb["proc"]
+        if p is not None and (p.returncode is not None or p.sigkill):
+            # ground truth is the process table, not what the pool publishes about it
+            if p.returncode == 0 and not p.sigkill:
+                return "ok"
+            return "cancelled" if p.sigkill else "failed"
         st = self.pool.st_name(key[1])
         return {"COMPLETED": "ok", "FAILED": "failed", "KILLED": "timeout", "CANCELLED": "cancelled"}.get(st)
 
